@@ -106,6 +106,30 @@ func c15pixels(c *h.Ctx, tile maptile.Tile, extent uint32, pts orb.MultiPoint, p
 		}
 		c.Fail(key, "integer tile coordinates do not come back exactly after ProjectToWGS84 and ProjectToTile ("+what+")", map[string]interface{}{"tile": sv(tile), "extent": extent, "pixel": sv(pts[i]), "lonlat": sv(mid[i]), "back": sv(back[i])})
 	}
+	if fails == 0 && len(pts) >= 3 {
+		// the same coordinates as the vertices of other kinds (a line, a closed ring in the order given and reversed, a polygon with
+		// a hole), in layers of version 1 and 2: the same integers in the same order must come back
+		if len(pts) > 48 {
+			pts = pts[:48]
+		}
+		ring := append(orb.Ring(pts.Clone()), pts[0])
+		rev := ring.Clone()
+		rev.Reverse()
+		for _, ver := range []uint32{1, 2} {
+			for name, g := range map[string]orb.Geometry{"line string": orb.LineString(pts.Clone()), "polygon": orb.Polygon{ring.Clone()}, "polygon wound the other way": orb.Polygon{rev.Clone()},
+				"polygon with a hole": orb.Polygon{ring.Clone(), rev.Clone()}, "multi polygon": orb.MultiPolygon{{rev.Clone()}, {ring.Clone()}}} {
+				want := refmodel.Copy(g)
+				ff := geojson.NewFeature(g)
+				l2 := &mvt.Layer{Name: "l", Version: ver, Extent: extent, Features: []*geojson.Feature{ff}}
+				l2.ProjectToWGS84(tile)
+				l2.ProjectToTile(tile)
+				if !refmodel.EqualBits(ff.Geometry, want) {
+					fails++
+					c.Fail("", "the tile coordinates of a "+name+" do not come back exactly, in order, after ProjectToWGS84 and ProjectToTile", map[string]interface{}{"tile": sv(tile), "extent": extent, "version": ver, "before": sv(want), "after": sv(ff.Geometry)})
+				}
+			}
+		}
+	}
 	return fails
 }
 
@@ -174,6 +198,26 @@ func init() {
 					g := optsOrd.Geometry(r, r.Intn(5))
 					if idx%3 == 0 {
 						g = optsTiny.Geometry(r, r.Intn(4)) // tiny integer grid: the image of a vertex is often the next vertex
+					}
+					if idx%11 == 5 {
+						// a bushy tree of collections: several sibling collections on a level, each holding further collections
+						var tree func(depth int) orb.Collection
+						tree = func(depth int) orb.Collection {
+							var out orb.Collection
+							for n := r.Range(1, 4); n > 0; n-- {
+								switch {
+								case depth > 0 && r.P(2, 3):
+									out = append(out, tree(depth-1))
+								case r.Bool():
+									out = append(out, orb.Point{float64(r.Intn(9)), float64(r.Intn(9))})
+								default:
+									out = append(out, orb.LineString{{float64(r.Intn(9)), float64(r.Intn(9))}, {float64(r.Intn(9)), float64(r.Intn(9))}})
+								}
+							}
+							return out
+						}
+						g = tree(r.Range(2, 4))
+						c.Count("bushy_collection_trees", 1)
 					}
 					projs := []struct {
 						name string
